@@ -86,6 +86,12 @@ def races(stderr, unattributed=None):
         if loc is None:
             m2 = re.search(r"Location is ([^\n]+)", rep)
             loc = m2.group(1) if m2 else "unknown"
+            # the copy of the error-location record that econf_errLocation hands to its caller (strdup in
+            # last_scanned_file): when another thread replaces the record during that strdup - the race the property
+            # exempts - the copy can lack its terminator, and the caller's read of it runs into neighbouring freed
+            # memory.  A report about THAT block is a report about the exempt record.
+            m3 = re.search(r"Location is heap block[^\n]*\n((?:\s+#\d+[^\n]*\n)+)", rep)
+            if m3 and re.search(r"#\d+ last_scanned_file ", m3.group(1)): loc = "last_scanned_filename"
         fn = re.search(r"#0 (\w+) /[^\n]*/(lib|util)/", rep)
         out.append((loc, (fn.group(1) if fn else "?") + ": " + rep.split("\n")[0].strip()))
     return out
